@@ -347,6 +347,7 @@ def st_universe(draw, mode="loop", kinds=None, max_bars=8, max_ops=14, need=None
     case["wallet"] = {"USDC": draw(st.sampled_from(["0", "5000", "100000", "100000"])), "WETH": draw(st.sampled_from(["0", "2", "50", "50"])), "OSQTH": draw(st.sampled_from(["0", "0", "30"])),
                       "DAI": draw(st.sampled_from(["0", "20000"])), "ETH": draw(st.sampled_from(["0", "20", "20"])), "WAVAX": draw(st.sampled_from(["0", "500"]))}
     case["sparse_wallet"] = draw(st.booleans())  # tokens with a zero balance have no wallet entry at all
+    case["price_chunks"] = mode == "loop" and draw(st.integers(0, 3)) == 0  # the price frame handed over in two consecutive time chunks
     case["reused_markets"] = draw(st.integers(0, 3)) == 0  # market objects that were attached to another broker before
     nbars = (start + n - 1) // k - start // k + 1
     first_bin = start // k
